@@ -29,12 +29,12 @@ import glob
 import json
 import os
 
-from lib import core, c02run
+from lib import core, c02run, pipeline
 
 ID = 'C02'
-COQ_CONE = ['Properties/C02.v']
+COQ_CONE = ['Properties/C02.v', 'Properties/Pipeline.v']
 EXTRACT = 'Extract/C02Extract.v'
-DRIVER = ['ocaml/Flow_driver.ml', 'ocaml/C02_driver.ml']
+DRIVER = ['ocaml/Pipeline_driver.ml', 'ocaml/Flow_driver.ml', 'ocaml/C02_driver.ml']
 MONITORS = ['mon_c02']
 ASSUMPTIONS = [
     'a crash means that every later operation of the job fails; the operation at the boundary happened completely '
@@ -130,6 +130,9 @@ def run(ctx):
     budget = int(os.environ.get('C02_BUDGET_S', '0' if ctx.quick else '2700')) or None
     c02run.run(ctx, plan(ctx.seed, n), length, limit, dedupe=dedupe, budget_s=budget)
     ctx.exhaustive = False
+    k = 16 if ctx.quick else 120
+    ctx.rule += pipeline.TIE_RULE % k
+    pipeline.tie(ctx, k)
 
 
 def replay(ctx, data):
